@@ -103,8 +103,11 @@ def check_ins_result(fs, model, mon):
         if not abs(fs.logZ_error - err_ref) <= 1e-7 * max(1e-300, abs(err_ref)) + 1e-12:
             P("logZ-error-differs-from-recomputation", (float(fs.logZ_error), err_ref))
         w = ns.log_posterior_weights
-        if len(w) != n or not np.all(np.abs(w - (s["logL"] + s["logW"] - z_ref)) <= 1e-9 * np.maximum(1.0, np.abs(w))):
-            P("weights-differ-from-recomputation", "")
+        w_ref = s["logL"] + s["logW"] - z_ref
+        with np.errstate(invalid="ignore"):
+            okw = (np.abs(w - w_ref) <= 1e-9 * np.maximum(1.0, np.abs(w_ref))) | (np.isneginf(w) & np.isneginf(w_ref))
+        if len(w) != n or not np.all(okw):
+            P("weights-differ-from-recomputation", int(np.sum(~okw)) if len(w) == n else (len(w), n))
         mon.bump("C05.estimator_recomputed")
     # sample count = sum of the draws of every level
     h = ns.history
